@@ -98,11 +98,15 @@ func (g *PredGen) Num(depth int) *Node {
 	l := g.Num(depth - 1)
 	rr := g.Num(depth - 1)
 	if op == "/" {
-		// literal non-zero divisor only
-		if r.Bool() {
+		// constant non-zero divisor only
+		switch r.Intn(3) {
+		case 0:
 			rr = Int(int64([]int{1, 2, 3, 5}[r.Intn(4)]))
-		} else {
+		case 1:
 			rr = Float([]string{"0.5", "2.0", "0.25"}[r.Intn(3)])
+		default:
+			// a constant call whose float result is a whole number (it stays a float)
+			rr = []*Node{Call("float", Int(2)), Call("float", Str("2")), Call("float", Str("4.0")), Call("float", Int(5))}[r.Intn(4)]
 		}
 	}
 	return Bin(op, l, rr)
